@@ -76,10 +76,13 @@ ArgVal(d, kw, i, p) ==
       [] s = "up"      -> ValOf(d, kw, p)
       [] s = "default" -> DefaultOf(d, p)
       [] s = "missing" -> MissingV
+(* a function may be declared to return None whatever its arguments (optional field `retnone`): None is an ordinary value *)
+ReturnsNone(d, i) == "retnone" \in DOMAIN d.funcs[i] /\ d.funcs[i].retnone
 ValOf(d, kw, n) ==
     IF PHas(kw, n) THEN PGet(kw, n)
     ELSE LET i == FuncOf(d, n)  ps == d.funcs[i].params
-         IN  Term(n, [k \in 1..Len(ps) |-> ArgVal(d, kw, i, ps[k])])
+         IN  IF ReturnsNone(d, i) THEN NoneT
+             ELSE Term(n, [k \in 1..Len(ps) |-> ArgVal(d, kw, i, ps[k])])
 
 ArgsOf(d, kw, i) == LET ps == d.funcs[i].params IN [k \in 1..Len(ps) |-> <<ps[k], ArgVal(d, kw, i, ps[k])>>]
 
